@@ -2,6 +2,7 @@ package main
 
 import (
 	"bufio"
+	"crypto/sha256"
 	"fmt"
 	"io"
 	"os"
@@ -286,7 +287,14 @@ func (s *Solver) count(r string) {
 func (s *Solver) Feasible(decls []VarDecl, pc []string, cond string) bool {
 	t0 := time.Now()
 	defer func() { s.Dur += time.Since(t0) }()
-	ck := strings.Join(pc, "\x00") + "\x01" + cond
+	hsh := sha256.New()
+	for _, c := range pc {
+		hsh.Write([]byte(c))
+		hsh.Write([]byte{0})
+	}
+	hsh.Write([]byte{1})
+	hsh.Write([]byte(cond))
+	ck := string(hsh.Sum(nil)[:16])
 	if r, ok := s.cache[ck]; ok {
 		s.CacheHit++
 		return r != "unsat"
